@@ -71,6 +71,8 @@ type interpreter struct {
 	frozenCount     int
 	envCount        int
 	dbgDumped       bool
+	syncMaps        map[*value]*omap
+	onceDone        map[*value]bool
 	initAllow       func(path string) bool
 	inInit          bool
 	funcsSeen       map[*ssa.Function]bool
@@ -712,6 +714,7 @@ func (i *interpreter) noteGlobalWrite(a *value) {
 	}
 	if g, ok := i.globalsOf[a]; ok {
 		i.res.GlobalWrites[g.String()+" @ "+i.curPosString()]++
+		i.ps.sharedWrites++
 	}
 }
 
